@@ -69,6 +69,7 @@ class Fault:
 
     def __init__(self, eng, ops=None):
         self.ops = tuple(ops) if ops else FAULT_OPS
+        self.exc = 'OSError'
         self.eng = eng
         self.j = eng.fresh_int('fault_j', 1, 60)
         self.count = 0
@@ -95,6 +96,10 @@ class Fault:
         if bool(self.j == self.count):
             self.fired = (op,) + tuple(args)
             self.sid = self.side.api_stack[-1] if self.side.api_stack else None
+            if self.exc == 'ValueError' and op == 'gzip-data':
+                # not every failure of the cache write is an OSError: json refuses e.g. an integer of more than 4300 digits
+                # with ValueError, after the file has been opened
+                raise ValueError('Exceeds the limit (4300 digits) for integer string conversion (injected)')
             raise OSError(errno.EIO, 'injected I/O error', args[0] if args else None)
 
 
@@ -121,6 +126,9 @@ def harness(eng, fam, P):
             else:
                 nb += 1
                 fault = Fault(eng, P.get('only_ops'))
+                if P.get('fault_excs'):
+                    fault.exc = P['fault_excs'][eng.choose('fault_exc', len(P['fault_excs']))]
+                    eng.path_info['fault_exc'] = fault.exc
                 pre = w.fs.snapshot(w.root)
                 prev_created = set(d.state.created_dirs) if w.ref.kind(w.cache) == FILE else set()
                 impl, ref = _build_with_fault(d, prog, fault, w)
@@ -135,7 +143,8 @@ def harness(eng, fam, P):
                     eng.witness('fault-in-backup')
                 if fault.sid is None:
                     # the fault hit the root machinery (cache directory, cache backup, cache write): the build raises it
-                    eng.check(PR + '.fault-surfaces', impl[0] == 'exc' and isinstance(impl[1], OSError), sig + ('root',),
+                    eng.check(PR + '.fault-surfaces', impl[0] == 'exc' and isinstance(impl[1], ValueError if fault.exc == 'ValueError' and fault.fired[0] == 'gzip-data' else OSError),
+                              sig + ('root',),
                               info={'impl': repr(impl[1])[:200], 'fault': fault.fired})
                 if impl[0] == 'exc':
                     eng.witness('fault-propagated-rollback')
